@@ -36,6 +36,7 @@ var c09Shapes = []c09Shape{
 	{"selector-tail-recursion", "o := {}\no.spin = func(self, n) { return self.spin(self, n + 1) }\no.spin(o, 0)\n", false, nil},
 	{"iterator-loop", "a := [1, 2, 3]\nx := 0\nfor { for k, v in a { x += v } }\n", false, nil},
 	{"callrep-second-call-loops", "n := 0\nf := func() { n++; if n < 2 { return n }; x := 0; for { x++ } }\ncallrep(f, 3)\n", false, nil},
+	{"dispatcher-ignoring-errors", "f := func(i) { x := 0; for { x++ } }\ncallall(f, 4)\nx := 0\nfor { x++ }\n", false, nil},
 	{"nested-tries-loop", "x := 0\nfor { try { try { x++ } finally { x++ } } catch e { x = 0 } }\n", false, nil},
 	{"finite", "f := func(i) { return i + 1 }\nx := 0\nfor i := 0; i < 6; i++ { x = call(f, x) }\nreturn x\n", true, nil},
 }
@@ -90,6 +91,31 @@ func c09CallMany(w *sim.World, s *sim.Sched) *ugo.Function {
 
 // the follow-up uses pooled and non-pooled child VMs and strings.Map (which acquires from the pool):
 // a child VM recycled from the aborted run must be as good as a new one
+// callall(f, n): a Go callback that invokes a script function n times on ONE Invoker handle and ignores errors
+// (a dispatcher that reports failures per item). After an abort every further Invoke must fail at once.
+func c09CallAll(w *sim.World) *ugo.Function {
+	return &ugo.Function{Name: "callall", ValueEx: func(c ugo.Call) (ugo.Object, error) {
+		n := int(c.Get(1).(ugo.Int))
+		pooled := false
+		if k := len(w.CallErrs); k < len(w.Spec.Pooled) {
+			pooled = w.Spec.Pooled[k]
+		}
+		inv := ugo.NewInvoker(c.VM(), c.Get(0))
+		if pooled {
+			inv.Acquire()
+			defer inv.Release()
+		}
+		failed := 0
+		for i := 0; i < n; i++ {
+			if _, err := inv.Invoke(ugo.Int(i)); err != nil {
+				failed++
+			}
+		}
+		w.CallErrs = append(w.CallErrs, fmt.Sprint("failed=", failed))
+		return ugo.Int(failed), nil
+	}}
+}
+
 const c09Followup = sim.Prelude + "a := 0\nfor i := 0; i < 5; i++ { a += i }\nf := func(x) { return x * 2 }\ns := import(\"strings\")\nreturn [a, call(f, 21), call(f, 4), call(f, 5), s.Map(func(c) { return c + 1 }, \"ab\")]\n"
 const c09FollowupWant = "value=[i:10,i:42,i:8,i:10,s:\"bc\"] hist=[]"
 
@@ -159,7 +185,7 @@ func c09VM(rc *sim.RunCtx, shapeIdx int, pooledAll bool, pl *c09Placement) {
 		nAborts = 1 + t.Draw(3)
 	}
 	mm := newModuleMap(nil)
-	bc, err := compile(sim.PreludeCall+"global callmany\n"+shape.src, mm, false, 0)
+	bc, err := compile(sim.PreludeCall+"global (callmany, callall)\n"+shape.src, mm, false, 0)
 	if err != nil {
 		rc.Discard = "compile-error"
 		rc.Logf("compile: %v", err)
@@ -180,6 +206,7 @@ func c09VM(rc *sim.RunCtx, shapeIdx int, pooledAll bool, pl *c09Placement) {
 	defer restorePool()
 	w := sim.NewWorld(ws, nil)
 	w.Globals["callmany"] = c09CallMany(w, s)
+	w.Globals["callall"] = c09CallAll(w)
 	vm := ugo.NewVM(bc)
 
 	var runErr error
@@ -403,6 +430,7 @@ func c09Eval(rc *sim.RunCtx) {
 	defer restorePool()
 	w := sim.NewWorld(ws, nil)
 	w.Globals["callmany"] = c09CallMany(w, s)
+	w.Globals["callall"] = c09CallAll(w)
 	mm := newModuleMap(nil)
 	ev := ugo.NewEval(ugo.CompilerOptions{ModuleMap: mm}, w.Globals)
 	ctx, cancel := context.WithCancel(context.Background())
@@ -411,7 +439,7 @@ func c09Eval(rc *sim.RunCtx) {
 	var err error
 	var follow string
 	mainTh := s.Go("eval", func() {
-		ret, _, err = ev.Run(ctx, []byte(sim.PreludeCall+"global callmany\n"+shape.src))
+		ret, _, err = ev.Run(ctx, []byte(sim.PreludeCall+"global (callmany, callall)\n"+shape.src))
 		if s.Killed() {
 			return
 		}
@@ -509,7 +537,7 @@ func init() {
 	sim.Register(&sim.Engine{
 		ID:    "C09",
 		Level: "fault_enumeration",
-		Rule: "scenario VM: a runner thread executes one of 14 fixed script shapes (top-level loop, callee loop, loop on a pooled or non-pooled child VM, child of child, catch-and-retry, strings.Map callback, Go host loop over child VMs, nested host loop, tail recursion through a plain and through a selector call, iterator loop, second invocation on one Invoker handle loops, loop of nested try statements, finite control) while aborter threads call Abort(); " +
+		Rule: "scenario VM: a runner thread executes one of 15 fixed script shapes (top-level loop, callee loop, loop on a pooled or non-pooled child VM, child of child, catch-and-retry, strings.Map callback, Go host loop over child VMs, nested host loop, tail recursion through a plain and through a selector call, iterator loop, second invocation on one Invoker handle loops, loop of nested try statements, a Go dispatcher that keeps invoking on one handle after errors, finite control) while aborter threads call Abort(); " +
 			"enumerated runs place the abort thread after the runner's k-th reported hook event (k<60), let it run j of its own protocol points (j<7), give the runner m∈{1,3,9} events, then finish the abort — every (shape, pooled, k, j, m) once; random runs draw thread choice and quantum at every hook point with 1–2 aborters × 1–3 aborts. " +
 			"scenario Eval: Eval.Run(ctx) with the context cancelled at a drawn point from before compilation to after completion. Oracle: Run/Eval.Run returns within 256 further VM instructions after the last Abort()/cancel() has returned, with ErrVMAborted / a non-nil error for non-terminating scripts; afterwards the same VM/session runs a fixed script to its known outcome. " +
 			"distinct = distinct (shape, placement) for enumerated runs and distinct (shape, context-switch sequence) otherwise; every run has an abort or cancel, so every run is non-trivial.",
